@@ -261,6 +261,7 @@ type Evaluator struct {
 	seamVals map[*T]bool
 	// initCells: per package, the heap its initialiser leaves (globals.go)
 	initCells map[*ssa.Package]map[*T]*T
+	initMaps  map[*T][][2]*T // contents of the maps package initialisers made (globals.go)
 }
 
 // protocolNames: functions whose calls are events of the rules' specifications; the same-package inlining
@@ -496,6 +497,9 @@ func decomposable(t types.Type) *types.Struct {
 func (ev *Evaluator) load(st *State, addr *T, typ types.Type) *T {
 	if v, ok := st.cells[addr]; ok {
 		return v
+	}
+	if addr.Op == "faddr" && ev.P.unsetHook(addr.Aux, typ) {
+		return ev.TS.zeroOf(typ)
 	}
 	// a whole opaque value stored at an ancestor
 	if addr.Op == "faddr" {
@@ -1703,6 +1707,9 @@ func (ev *Evaluator) evalValue(st *State, fr *Frame, v ssa.Value) (*T, []*State)
 			return s.Args[x.Field], nil
 		}
 		k, ft := fieldKey(x.X.Type(), x.Field)
+		if ev.P.unsetHook(k, ft) {
+			return ts.zeroOf(ft), nil
+		}
 		return ts.intern(&T{Op: "fld", Aux: k, Args: []*T{s}, Typ: ft}), nil
 	case *ssa.IndexAddr:
 		base := ev.val(st, fr, x.X)
@@ -1730,6 +1737,9 @@ func (ev *Evaluator) evalValue(st *State, fr *Frame, v ssa.Value) (*T, []*State)
 		return ts.intern(&T{Op: "app", Aux: "index", Args: []*T{ev.val(st, fr, x.X), ev.val(st, fr, x.Index)}, Typ: x.Type()}), nil
 	case *ssa.Lookup:
 		m, k := ev.val(st, fr, x.X), ev.val(st, fr, x.Index)
+		if r, fk, ok := ev.constMapLookup(st, fr, x, m, k); ok {
+			return r, fk
+		}
 		val := ts.intern(&T{Op: "app", Aux: "lookup", Args: []*T{m, k}, Typ: x.Type()})
 		if x.CommaOk {
 			ok := ts.intern(&T{Op: "app", Aux: "haskey", Args: []*T{m, k}, Typ: types.Typ[types.Bool]})
